@@ -6,10 +6,10 @@ From Mila Require Import Lib.Bytes Lib.Machine Model.BinArchive Model.BinFormat 
 Import ListNotations.
 Local Open Scope N_scope.
 
-Theorem round_trip m a :
+Theorem round_trip kf m a :
   wf_archive a -> fits32 a ->
   exists f a',
-    serialize m a = Ok f /\ wfb f /\ from_bytes (a_endian a) f = Ok a' /\
+    serialize_k kf m a = Ok f /\ wfb f /\ from_bytes (a_endian a) f = Ok a' /\
     a_endian a' = a_endian a /\ a_cstrs a' = [] /\
     (* the same size, plus the c-string pool the format itself appends (nothing without c-strings) *)
     size a' = size a + lenN (pool_bytes a) /\ lenN (pool_bytes a) mod 4 = 0 /\ (a_cstrs a = [] -> size a' = size a) /\
@@ -23,9 +23,9 @@ Theorem round_trip m a :
     (forall s cs cell, In (s, cs) (a_cstrs a) -> In cell cs -> read_c_string a' cell = Ok (Some s)).
 Proof.
   intros WF FIT.
-  destruct (serialize_conforms m a WF FIT) as (f & Hs & Hw & Hc).
+  destruct (serialize_conforms kf m a WF FIT) as (f & Hs & Hw & Hc).
   destruct (parser_correct _ _ _ Hc) as (a' & Hp & Hd & He & Hcs & Gp & Gt & Gl & _).
-  destruct (published_data_len a WF) as (L1 & L2 & L3).
+  destruct (published_data_len kf a WF) as (L1 & L2 & L3).
   exists f, a'. split; [exact Hs|]. split; [exact Hw|]. split; [exact Hp|]. split; [exact He|]. split; [exact Hcs|].
   assert (Hsize : size a' = size a + lenN (pool_bytes a)) by (unfold size at 1; rewrite Hd; exact L1).
   split; [exact Hsize|]. split; [exact L2|]. split; [intros E; rewrite Hsize, (L3 E); apply N.add_0_r|].
@@ -34,7 +34,7 @@ Proof.
   split. { intros x Hx. rewrite Gp. apply published_own_pointers; assumption. }
   split. { intros x. rewrite Gl. reflexivity. }
   intros s cs cell Hin Hcell.
-  destruct (published_cstring a WF s cs cell Hin Hcell) as (p & G1 & G2 & G3).
+  destruct (published_cstring kf a WF s cs cell Hin Hcell) as (p & G1 & G2 & G3).
   assert (Hc4 : cell + 4 <= size a).
   { apply (wf_cells_in a WF). unfold cells. apply in_or_app. right. apply in_or_app. right.
     unfold cs_cells. apply in_concat. exists cs. split; [|exact Hcell]. apply in_map_iff. exists (s, cs). auto. }
@@ -42,5 +42,5 @@ Proof.
   assert (Hi : inside a' cell 4 = true) by (apply inside_true; rewrite Hsize; lia).
   rewrite Hi. cbn [bind]. rewrite Gp, G1.
   rewrite validate_address_false. unfold size. rewrite Hd.
-  destruct (N.ltb_spec p (lenN (c_data (published a)))); [|lia]. cbn [bind]. rewrite G3. reflexivity.
+  destruct (N.ltb_spec p (lenN (c_data (published kf a)))); [|lia]. cbn [bind]. rewrite G3. reflexivity.
 Qed.
